@@ -1259,7 +1259,7 @@ def run_sweep(ctx, only=None):
     return len(jobs)
 
 
-W_CLAUSES = ["export_p_prints_array_as_scalar", "allexport_not_applied_by_builtin_writers", "posix_special_builtin_assignment_not_persistent",
+W_CLAUSES = ["export_p_prints_array_as_scalar", "allexport_not_applied_by_builtin_writers", "allexport_readonly_assignment_to_array_not_exported", "posix_special_builtin_assignment_not_persistent",
              "declared_unset_variable_enumerated", "test_v_on_array", "nameref_not_followed", "local_dash_not_implemented",
              "local_I_not_implemented", "attribute_listing_without_p_format"]
 
@@ -1268,6 +1268,7 @@ W_WITNESSES = [
     ("export_p_prints_array_as_scalar", "a=(4 5); export a; export -p | grep ' a='"),
     ("allexport_not_applied_by_builtin_writers",
      "set -a; read r <<< 1; for f in 1; do :; done; printf -v p %s 1; (( q = 3 )); : ${d:=4}; OPTIND=1; getopts o g -o; declare -p r f p q d g"),
+    ("allexport_readonly_assignment_to_array_not_exported", "set -a; a=(la); readonly a=cD; declare -p a"),
     ("posix_special_builtin_assignment_not_persistent", "set -o posix; u=1 :; echo \"u=${u-U}\"; v=1 eval :; echo \"v=${v-U}\"; y=1 export y2; echo \"y=${y-U}\""),
     ("declared_unset_variable_enumerated", "f() { local z; echo \"[${!z@}]\"; compgen -v | grep -x z; }; f; export q; echo \"[${!q@}]\"; compgen -e | grep -x q"),
     ("test_v_on_array", "a=(1 2); declare -A m=([k]=v); [[ -v m ]] && echo m; [[ -v a[1] ]] && echo a1; [[ -v m[k] ]] && echo mk; b=([1]=x); [[ -v b ]] && echo b"),
@@ -1294,6 +1295,21 @@ def w_classify(context, option, obs, xb, xo, blk_b, blk_o):
         # listings, brush shows a string where bash shows `declare -ax a=(…)`
         if diff and all(n in eo and n in eb and eo[n].split("~")[1][:1] in ("I", "M") and eb[n].split("~")[1][:1] == "s" for n in diff):
             return "export_p_prints_array_as_scalar"
+    if option == "set -a" and diff:
+        # residue of the allexport repair (1d44d2e): `readonly NAME=value` on an existing ARRAY assigns element 0 without
+        # marking the array exported (bash: -arx).  Recognised narrowly: every differing name is, in bash's own view,
+        # a readonly array, and the two shells differ on it by the export attribute only (or, in the exported-set
+        # observers, brush lacks exactly those names).
+        def _ro_array(n):
+            v = view.get(n) or eo.get(n) or ""
+            return "~" in v and "r" in v.split("~")[0] and v.split("~", 1)[1][:1] in ("I", "M")
+        if all(_ro_array(n) for n in diff):
+            if obs in ("decl", "all", "lp", "ro"):
+                strip1 = lambda v: (v.split("~")[0].replace("x", "") or "-") + "~" + v.split("~", 1)[1] if "~" in v else v
+                if all(n in eb and n in eo and strip1(eb[n]) == strip1(eo[n]) and "x" in eo[n].split("~")[0] for n in diff):
+                    return "allexport_readonly_assignment_to_array_not_exported"
+            if obs in ("exp", "env", "penv") and all(n in eo and n not in eb for n in diff):
+                return "allexport_readonly_assignment_to_array_not_exported"
     if option == "set -a":
         # allexport: only the assignment statement and declare/local/export apply it; read / for / printf -v / (( )) /
         # ${v:=} / getopts / mapfile leave the variable unexported
